@@ -112,7 +112,7 @@ func runAloneProbe(file string) int {
 		return 2
 	}
 	for _, o := range append(append([]OpSpec{}, c.Prelude...), c.Target) {
-		if catByName[o.Type] == nil {
+		if typeByKey(o.Type) == nil {
 			fmt.Println("ALONE-ERROR unknown type", o.Type)
 			return 2
 		}
@@ -292,6 +292,7 @@ func runWorker(master uint64, worker, workers, scheds, maxProgs int, budget floa
 	start := time.Now()
 	res := &WorkerResult{Worker: worker, Stats: newStats(), FirstIndex: -1}
 	st := res.Stats
+	genTypesEnabled = worker%3 == 2
 	sigs := map[uint64]bool{}
 	seenKeys := map[string]bool{}
 	var siteBits [64]uint64
@@ -330,7 +331,7 @@ func runWorker(master uint64, worker, workers, scheds, maxProgs int, budget floa
 				if o.Poison != 0 {
 					st.Faults["failing_encode"]++
 				}
-				if ti := catByName[o.Type]; ti != nil && !ti.Reflectable {
+				if ti := typeByKey(o.Type); ti != nil && !ti.Reflectable {
 					st.Faults["failing_first_use"]++
 				}
 			}
@@ -726,7 +727,7 @@ func loadReplay(file string) (*Replay, error) {
 	}
 	for _, ops := range rp.Workload.Tasks {
 		for _, o := range ops {
-			if catByName[o.Type] == nil {
+			if typeByKey(o.Type) == nil {
 				return nil, fmt.Errorf("type %s is not in the catalogue of this build", o.Type)
 			}
 		}
